@@ -127,3 +127,53 @@ func VerifC20_q_rangeStringForms() {
 		verifAssert("C20/pool-rejects-malformed-range", err != nil, "the pool decoder accepts the malformed range string "+c.text)
 	}
 }
+
+// vSamePool: same ranges, gateway, mask, vlan and node subnets (in order).
+func vSamePool(p, q *FloatingIPPool) bool {
+	same := len(q.IPRanges) == len(p.IPRanges) && q.Gateway.Equal(p.Gateway) && q.Mask.String() == p.Mask.String() && q.Vlan == p.Vlan && len(q.NodeSubnets) == len(p.NodeSubnets)
+	for i := 0; same && i < len(p.IPRanges); i++ {
+		same = q.IPRanges[i].First.Equal(p.IPRanges[i].First) && q.IPRanges[i].Last.Equal(p.IPRanges[i].Last)
+	}
+	for i := 0; same && i < len(p.NodeSubnets); i++ {
+		same = q.NodeSubnets[i].String() == p.NodeSubnets[i].String()
+	}
+	return same
+}
+
+// BOUND: finite family of accepted configuration texts that are not what the encoder writes: node subnets written with host bits, the same node subnet listed twice (same or different spelling), the legacy routableSubnet field, single-address and first~first ranges, mergeable-free ranges in a /30 and at the end of the address space, vlan absent; each is decoded, the accepted pool is encoded and decoded again and must be the same pool (and a second encoding the same text)
+func VerifC20_q_acceptedTextRoundTrip() {
+	const tail = `"ips":["10.1.0.10~10.1.0.12","10.1.0.20"],"subnet":"10.1.0.0/24","gateway":"10.1.0.1"`
+	texts := []string{
+		`{"nodeSubnets":["10.0.1.0/24"],` + tail + `,"vlan":2}`,
+		`{"nodeSubnets":["10.0.1.7/24"],` + tail + `}`,
+		`{"nodeSubnets":["10.0.1.0/24","10.0.1.0/24"],` + tail + `}`,
+		`{"nodeSubnets":["10.0.1.1/24","10.0.2.0/24","10.0.1.2/24"],` + tail + `}`,
+		`{"nodeSubnets":["10.0.2.0/24","10.0.1.0/24"],` + tail + `,"vlan":4094}`,
+		`{"routableSubnet":"10.0.1.0/24",` + tail + `}`,
+		`{"routableSubnet":"10.0.1.9/24",` + tail + `}`,
+		`{"nodeSubnets":["10.0.1.0/24"],"ips":["10.1.0.10~10.1.0.10"],"subnet":"10.1.0.0/24","gateway":"10.1.0.1"}`,
+		`{"nodeSubnets":["10.0.1.0/24"],"ips":["10.9.0.2"],"subnet":"10.9.0.0/30","gateway":"10.9.0.1"}`,
+		`{"nodeSubnets":["10.0.1.0/24"],"ips":["255.255.255.10~255.255.255.12","255.255.255.254~255.255.255.255"],"subnet":"255.255.255.0/24","gateway":"255.255.255.1","vlan":5}`,
+	}
+	text := texts[nondetChoice(len(texts))]
+	var p FloatingIPPool
+	if err := json.Unmarshal([]byte(text), &p); err != nil {
+		verifAssert("C20/valid-text-accepted?", false, "a valid configuration text was rejected: "+text)
+		return
+	}
+	data, err := json.Marshal(&p)
+	verifAssert("C20/accepted-pool-encodes", err == nil, "MarshalJSON failed for an accepted pool: "+text)
+	if err != nil {
+		return
+	}
+	var q FloatingIPPool
+	err = json.Unmarshal(data, &q)
+	verifReach("accepted-text-re-decoded")
+	verifAssert("C20/accepted-pool-decodes-again", err == nil, "UnmarshalJSON rejects the encoding of a pool it accepted: "+string(data))
+	if err != nil {
+		return
+	}
+	verifAssert("C20/accepted-pool-round-trip", vSamePool(&p, &q), "encoding an accepted pool and decoding it again yields another pool: "+text+" => "+string(data))
+	data2, err := json.Marshal(&q)
+	verifAssert("C20/accepted-pool-encoding-stable", err == nil && string(data2) == string(data), "the encoding of an accepted pool changes when it is decoded and encoded again: "+text)
+}
